@@ -842,6 +842,14 @@ def rule_m(chk, prog):
                 continue
             L = x.slice.id
             if L == getattr(loop.target, "id", None):
+                # the per-layer hydrology table looked up by the position of the request in the list instead of the layer it names
+                if isinstance(x.value.value, ast.Name) and any(isinstance(y, ast.Subscript) and isinstance(y.value, ast.Attribute) and y.value.attr == "loc"
+                                                               and norm(y.value.value) == norm(x.value.value) and isinstance(y.slice, ast.Name)
+                                                               and y.slice.id != L and "layer" in y.slice.id.lower() for y in ast.walk(fi.node)):
+                    n += 1
+                    chk.violation("C18.m", where, f"{norm(x)} in `for {norm(loop.target)} in {norm(loop.iter)[:40]}`",
+                                  f"the per-layer table `{norm(x.value.value)}` is looked up by the position of the request in the list, not by the layer the request names: "
+                                  "requests not listed as layers 1, 2, ... take another layer's properties", loc=fi.loc(x))
                 continue                                  # indexed by the loop variable itself
             at = flow.node_of(x)
             if at is None:
